@@ -416,4 +416,57 @@ theorem bifVectorRemote_not_bif {xs ys zs : List K} (pids : List Int) (k : Nat) 
   have : ¬ (((kids pids (k : Int)).length : Int) = 2) := by omega
   simp [lm_bif_vector_remote, lm_bif_vector_remote.body, Py.seq, Py.bind, RefineLm.node_children_eq pids k hk, Py.len, this, Py.finish]
 
+/-! ## compartment level: `length`, `section_area`, `volume`, `surface` -/
+
+/-- **`LMeasure.length` as translated** = the length of the compartment (`Path.length` of its index list; for `[a, b]` it is `0 + norm (pos b − pos a)`) -/
+theorem length_refines (norm : List K → K) {n : Nat} {xs ys zs : List K} (hc : Cols n xs ys zs) (c : List Int) (hb : ValidBranch n c) :
+    lm_length norm xs ys zs c = some (branchLength norm xs ys zs c) := by
+  simp only [lm_length, lm_length.body, Py.bind, pathLength_refines norm hc c hb, Py.finish, Option.map]
+
+theorem circle_area_eq (pi r : K) : circle_area pi r = some (pi * ((1 : K) * r * r)) := by
+  simp [circle_area, circle_area.body, Py.bind, powInt_two, Py.finish]
+
+theorem cylinder_volume_eq (pi r h : K) : cylinder_volume pi r h = some (pi * ((1 : K) * r * r) * h) := by
+  simp [cylinder_volume, cylinder_volume.body, Py.bind, powInt_two, Py.finish]
+
+theorem cylinder_side_eq (F : Py.Fld K) (pi r h : K) : cylinder_side_surface_area F pi r h = some ((Py.Fld.ofInt 2 : K) * pi * r * h) := by
+  simp [cylinder_side_surface_area, cylinder_side_surface_area.body, Py.finish]
+
+/-- **`LMeasure.section_area` as translated** = π · r[k]² -/
+theorem sectionArea_refines (pi : K) (rs : List K) (k : Nat) (hk : k < rs.length) :
+    lm_section_area pi rs (k : Int) = some (sectionArea pi rs (k : Int)) := by
+  simp [lm_section_area, lm_section_area.body, Py.bind, idx_col rs k hk, circle_area_eq, Py.finish, sectionArea]
+
+/-- **`LMeasure.volume` as translated** = π · r[p]² · length, where `p = compartment[compartment_point]` is the node the option selects -/
+theorem volume_refines (norm : List K → K) (pi : K) (cp : Int) {n : Nat} {xs ys zs rs : List K} (hc : Cols n xs ys zs) (hr : rs.length = n)
+    (c : List Int) (hb : ValidBranch n c) (p : Int) (hp : Py.idx c cp = some p) :
+    lm_volume norm pi cp xs ys zs rs c = some (volume norm pi xs ys zs rs c p) := by
+  have hm : p ∈ c := by
+    simp only [Py.idx] at hp
+    cases hn : Py.normIdx c.length cp with
+    | none => simp [hn] at hp
+    | some j => rw [hn] at hp; exact List.mem_of_getElem? hp
+  have hv := hb p hm
+  obtain ⟨j, rfl⟩ : ∃ j : Nat, p = (j : Int) := ⟨p.toNat, by omega⟩
+  simp only [lm_volume, lm_volume.body, Py.seq, Py.bind, hp, idx_col rs j (by omega), pathLength_refines norm hc c hb, cylinder_volume_eq,
+    Py.finish, Option.map, volume, Int.toNat_natCast]
+
+/-- **`LMeasure.surface` as translated** = 2 · π · r[p] · length, `p = compartment[compartment_point]` -/
+theorem surface_refines (F : Py.Fld K) (norm : List K → K) (pi : K) (cp : Int) {n : Nat} {xs ys zs rs : List K} (hc : Cols n xs ys zs)
+    (hr : rs.length = n) (c : List Int) (hb : ValidBranch n c) (p : Int) (hp : Py.idx c cp = some p) :
+    lm_surface F norm pi cp xs ys zs rs c = some (surface F norm pi xs ys zs rs c p) := by
+  have hm : p ∈ c := by
+    simp only [Py.idx] at hp
+    cases hn : Py.normIdx c.length cp with
+    | none => simp [hn] at hp
+    | some j => rw [hn] at hp; exact List.mem_of_getElem? hp
+  have hv := hb p hm
+  obtain ⟨j, rfl⟩ : ∃ j : Nat, p = (j : Int) := ⟨p.toNat, by omega⟩
+  simp only [lm_surface, lm_surface.body, Py.seq, Py.bind, hp, idx_col rs j (by omega), pathLength_refines norm hc c hb, cylinder_side_eq,
+    Py.finish, Option.map, surface, Int.toNat_natCast]
+
+/-- which node the option selects on a compartment `[a, b]`: `0` the first (parent) node, `-1` the last (the node itself) -/
+theorem comp_point (a b : Int) : Py.idx [a, b] (0 : Int) = some a ∧ Py.idx [a, b] (-1 : Int) = some b := by
+  constructor <;> simp [Py.idx, Py.normIdx]
+
 end RefineLmGeo
